@@ -605,7 +605,7 @@ impl<A: Canon> Canon for Padded<A> {
 #[derive(Epserde, Debug)]
 pub struct DropProbe<A: AsRef<[u64]>> {
     pub data: A,
-    pub tag: u64,
+    pub mark: u64,
 }
 pub static DROP_LOG: std::sync::Mutex<Vec<(u64, u64)>> = std::sync::Mutex::new(Vec::new());
 pub fn probe_sum(xs: &[u64]) -> u64 {
@@ -620,25 +620,56 @@ impl<A: AsRef<[u64]>> Drop for DropProbe<A> {
         let _g = crate::tracker::sim_enter();
         let s = probe_sum(self.data.as_ref());
         if let Ok(mut l) = DROP_LOG.lock() {
-            l.push((self.tag, s));
+            l.push((self.mark, s));
         }
     }
 }
 impl Gen for DropProbe<Vec<u64>> {
     fn gen(r: &mut Rng, size: usize) -> Self {
-        DropProbe { data: Vec::gen(r, size), tag: r.next() | 1 }
+        DropProbe { data: Vec::gen(r, size), mark: r.next() | 1 }
     }
 }
 impl<A: AsRef<[u64]>> Canon for DropProbe<A> {
     fn canon(&self, out: &mut Vec<u8>) {
         self.data.as_ref().canon(out);
-        self.tag.canon(out);
+        self.mark.canon(out);
     }
     fn parts(&self, out: &mut Vec<Part>) {
         let s = self.data.as_ref();
         // for the owned form this is the vector's own heap block, which is harmless: parts are only
         // asked of ε-copy forms.
         out.push(Part { addr: s.as_ptr() as usize, len: std::mem::size_of_val(s), align: 8 });
+    }
+}
+
+/// Zero-copy blocks with increasing alignment units, smaller first (a placement that suits the
+/// first block need not suit the later ones).
+#[derive(Epserde, Clone, Debug)]
+pub struct Incr<A, B, C, D> {
+    pub a: A,
+    pub b: B,
+    pub c: C,
+    pub d: D,
+}
+impl<A: Gen, B: Gen, C: Gen, D: Gen> Gen for Incr<A, B, C, D> {
+    fn gen(r: &mut Rng, size: usize) -> Self {
+        let s1 = inner_size(r, size);
+        let s2 = inner_size(r, size);
+        Incr { a: A::gen(r, size), b: B::gen(r, s1), c: C::gen(r, s2), d: D::gen(r, size.min(3)) }
+    }
+}
+impl<A: Canon, B: Canon, C: Canon, D: Canon> Canon for Incr<A, B, C, D> {
+    fn canon(&self, out: &mut Vec<u8>) {
+        self.a.canon(out);
+        self.b.canon(out);
+        self.c.canon(out);
+        self.d.canon(out);
+    }
+    fn parts(&self, out: &mut Vec<Part>) {
+        self.a.parts(out);
+        self.b.parts(out);
+        self.c.parts(out);
+        self.d.parts(out);
     }
 }
 
@@ -886,6 +917,10 @@ registry! {
     DeepA: DeepS<Vec<u64>, Vec<String>>;
     DeepB: DeepS<Vec<ZeroP>, Option<Vec<u16>>>;
     DeepC: DeepS<EnumD<Vec<u8>>, Bound<String>>;
+    DeepD: DeepS<Vec<u16>, Vec<u128>>;
+    IncrA: Incr<Vec<u16>, Vec<u32>, Vec<u64>, Vec<Z32>>;
+    IncrB: Incr<Vec<u8>, Vec<u16>, Option<Vec<u128>>, Vec<u64>>;
+    IncrC: Incr<String, Vec<(u16, u16)>, Vec<ZeroP>, Vec<u128>>;
     TupleSD: TupleS<Vec<u64>>;
     EnumDVec: EnumD<Vec<u32>> { variants = |r, s| (0..3).map(|v| EnumD::variant(v, r, s)).collect() };
     EnumDStr: EnumD<String> { variants = |r, s| (0..3).map(|v| EnumD::variant(v, r, s)).collect() };
@@ -899,6 +934,6 @@ registry! {
     PaddedVecU64: Padded<Vec<u64>>;
     PaddedZ32: Padded<Vec<Z32>>;
     PaddedStr: Padded<String>;
-    DropProbeD: DropProbe<Vec<u64>> { probe = |v| Some((v.tag, probe_sum(&v.data))) };
+    DropProbeD: DropProbe<Vec<u64>> { probe = |v| Some((v.mark, probe_sum(&v.data))) };
 }
 
